@@ -25,8 +25,11 @@ impl ComputeTasksBuilder {
     { unimplemented!() }
     #[verifier::external_body]
     fn add_task(&mut self, task: &Task, variant: Option<ResourceVariantId>, node_list: Vec<WorkerId>) -> (r: Option<ToWorkerMessage>)
+        // a message is cut after the new task, or (fix 45a48f5) before it: then the collected items go and the new one stays pending alone
         ensures match r {
-            Some(m) => m is ComputeTasks && m->ComputeTasks_0.items() == old(self).pending().push(ct_item(*task, variant)) && final(self).pending() == Seq::<CtItem>::empty(),
+            Some(m) => m is ComputeTasks && (
+                (m->ComputeTasks_0.items() == old(self).pending().push(ct_item(*task, variant)) && final(self).pending() == Seq::<CtItem>::empty())
+                || (old(self).pending().len() > 0 && m->ComputeTasks_0.items() == old(self).pending() && final(self).pending() == seq![ct_item(*task, variant)])),
             None => final(self).pending() == old(self).pending().push(ct_item(*task, variant)),
         }
     { unimplemented!() }
